@@ -88,7 +88,7 @@ func ZZ_C19_NamesAndSingletons() {
 		zzNetpolObj("ns1", "np", netv1.NetworkPolicySpec{}),
 		zzPodObj("ns1", "p1", map[string]string{"app": "p"}, nil, "own"),
 	}
-	kind := vf_Choose("kind", 7)
+	kind := vf_Choose("kind", 9)
 	var first, second parser.K8sObject
 	hasSecond := true
 	expectErr := true
@@ -117,6 +117,12 @@ func ZZ_C19_NamesAndSingletons() {
 		hasSecond = false
 	case 5: // pods of one owner with different labels
 		first, second = zzPodObj("ns1", "q1", map[string]string{"app": "q"}, nil, "own2"), zzPodObj("ns1", "q2", map[string]string{"app": "r"}, nil, "own2")
+		needle = "own2"
+	case 7: // pods of one owner whose labels differ only by a key with an empty value (legal in Kubernetes)
+		first, second = zzPodObj("ns1", "q1", map[string]string{"app": "q"}, nil, "own2"), zzPodObj("ns1", "q2", map[string]string{"app": "q", "canary": ""}, nil, "own2")
+		needle = "own2"
+	case 8: // same, the pod with the extra label first
+		first, second = zzPodObj("ns1", "q1", map[string]string{"app": "q", "canary": ""}, nil, "own2"), zzPodObj("ns1", "q2", map[string]string{"app": "q"}, nil, "own2")
 		needle = "own2"
 	case 6: // pods of one owner with the same labels are fine
 		first, second = zzPodObj("ns1", "q1", map[string]string{"app": "q"}, nil, "own2"), zzPodObj("ns1", "q2", map[string]string{"app": "q"}, nil, "own2")
